@@ -967,6 +967,13 @@ impl<const N: usize> SubscriptionsInner<N> {
 
     /// Remove entries that every subscription has already reported on.
     fn purge_reported_changes(&mut self) {
+        // A subscription that is being primed or reported on is not in `subscriptions`,
+        // and how far it has seen is only known once it completes. Purging now could
+        // drop a change it has not reported yet, so leave the table alone until then.
+        if self.subscriptions.len() < self.subscriptions_count {
+            return;
+        }
+
         if let Some(min_seen_attr_change_id) = self
             .subscriptions
             .iter()
